@@ -16,6 +16,7 @@ VERIF = os.path.dirname(os.path.dirname(os.path.abspath(__file__)))
 PYTHON = sys.executable
 NLANES = 16
 REPO_DIR = os.environ.get('VERIF_REPO_DIR', '/repo')
+OUT = os.environ.get('VERIF_OUT_DIR') or VERIF  # sensitivity runs against a mutated copy write elsewhere
 SCRATCH = '/dev/shm' if os.path.isdir('/dev/shm') and os.access('/dev/shm', os.W_OK) else os.environ.get('TMPDIR', '/tmp')
 
 sys.path.insert(0, VERIF)
@@ -216,8 +217,8 @@ def determinism_selftest(prop, tier, base_seed, records, count=3):
 
 
 def write_replay(prop, rec, case, result, note):
-    os.makedirs(os.path.join(VERIF, 'replays'), exist_ok=True)
-    path = os.path.join(VERIF, 'replays', f"{prop}-{case.get('seed', rec.get('index'))}.json")
+    os.makedirs(os.path.join(OUT, 'replays'), exist_ok=True)
+    path = os.path.join(OUT, 'replays', f"{prop}-{case.get('seed', rec.get('index'))}.json")
     import sqlalchemy  # pylint: disable=import-outside-toplevel
     import sqlite3  # pylint: disable=import-outside-toplevel
 
@@ -324,8 +325,8 @@ def aggregate(prop, tier, base_seed, records, wall, errors, nviol, notes):  # py
         'wall_s': round(wall, 2),
         'violations': nviol,
     }
-    os.makedirs(os.path.join(VERIF, 'evidence'), exist_ok=True)
-    with open(os.path.join(VERIF, 'evidence', f'{prop}.json'), 'w', encoding='utf8') as handle:
+    os.makedirs(os.path.join(OUT, 'evidence'), exist_ok=True)
+    with open(os.path.join(OUT, 'evidence', f'{prop}.json'), 'w', encoding='utf8') as handle:
         json.dump(doc, handle, indent=1)
     return doc
 
